@@ -8,6 +8,7 @@ import (
 
 	"github.com/tychoish/fun"
 	"github.com/tychoish/fun/ers"
+	"github.com/tychoish/fun/ft"
 )
 
 // stolen shamelessly from https://github.com/tendermint/tendermint/tree/master/internal/libs/queue
@@ -389,40 +390,61 @@ func (q *Queue[T]) Distributor() Distributor[T] {
 func (q *Queue[T]) Producer() fun.Producer[T] {
 	var next *entry[T]
 	return func(ctx context.Context) (o T, _ error) {
-		if next == nil {
-			q.mu.Lock()
-			next = q.front
-			q.mu.Unlock()
-		}
-
 		q.mu.Lock()
-		if next.link == q.front {
-			q.mu.Unlock()
-			return o, io.EOF
+		defer q.mu.Unlock()
+
+		if next == nil {
+			next = q.front
 		}
 
-		if next.link != nil {
-			next = next.link
-			q.mu.Unlock()
-		} else if next.link == nil {
-			if q.closed {
-				q.mu.Unlock()
+		var cancel context.CancelFunc
+		defer func() { ft.SafeCall(cancel) }()
+
+		for {
+			if next != q.front && next.link == nil && next != q.back {
+				// the entry this iterator yielded last was removed
+				// while it was the newest entry: everything that
+				// is in the queue now is unseen.
+				next = q.front
+			}
+
+			if next.link == q.front {
 				return o, io.EOF
 			}
 
-			q.mu.Unlock()
-			verifAt(ctx, "pubsub.Queue.Producer.unlocked")
-			if err := q.waitForNew(ctx); err != nil {
+			if next.link != nil {
+				next = next.link
+				return next.item, nil
+			}
+
+			if q.closed {
+				if cancel != nil {
+					return o, ErrQueueClosed
+				}
+				return o, io.EOF
+			}
+
+			if err := ctx.Err(); err != nil {
 				return o, err
 			}
 
-			q.mu.Lock()
-			if next.link != q.front {
-				next = next.link
+			if cancel == nil {
+				// If the context terminates, wake the waiter.
+				ctx, cancel = context.WithCancel(ctx)
+				verifAt(ctx, "helper.spawn", q.nupdates, "nupdates")
+				go func() {
+					<-ctx.Done()
+					verifAt(ctx, "helper.gate", q.nupdates)
+					q.mu.Lock()
+					defer q.mu.Unlock()
+					q.nupdates.Broadcast()
+					verifAt(ctx, "helper.done", q.nupdates)
+				}()
 			}
-			q.mu.Unlock()
-		}
 
-		return next.item, nil
+			verifAt(ctx, "prepark", q.nupdates, "nupdates")
+			q.nupdates.Wait()
+			verifAt(ctx, "woken", q.nupdates, &q.mu)
+		}
 	}
 }
